@@ -6,6 +6,7 @@ of Clone/Copy/PartialEq/Eq/Hash/Ord/PartialOrd/Default/Drop and the derive list 
 the non-test source, grouped by module; the obligation below says that this group is exactly what the model was written against.
 -/
 import WowSrp.Gen.Constants
+import WowSrp.Gen.Facts
 namespace WowSrp
 
 def expected_structuralNStr : List String := ["NormalizedString @src/normalized_string.rs: PartialEq Eq Hash Ord PartialOrd Clone | s length u8"]
